@@ -40,7 +40,7 @@ func VerifC02_noop_file_output() {
 	sym.Assert(ran("build-t") == 1, "C02.noop.rebuild-executes-no-command")
 	if mode == 0 {
 		got, ok := readWS("p/gen/out.txt")
-		sym.Assert(ok && got == content, "C06.E2.file-output-restored-byte-identical")
+		sym.Assert(ok && got == content, "C02.noop.file-output-restored-byte-identical")
 	}
 	sym.Assert(t2.OutputHash == t1.OutputHash && t2.ChangeHash == t1.ChangeHash, "C02.noop.hashes-stable")
 	sym.Reach("C02.noop.file")
